@@ -507,13 +507,21 @@ def run_c14_steps(ctx, ses, plan_steps):
             # the fault fired again after the save had already failed (a transient error that outlasts the first
             # failure also hits the moving-back): the statement only demands that nothing is lost and order is kept
             ctx.count("fault_also_hit_rollback", 1, "reach")
-            if [x for x in slots if x is not None] != [x for x in state["slots_before"] if x is not None]:
+            have = [x for x in slots if x is not None]
+            had = [x for x in state["slots_before"] if x is not None]
+            aside = os.path.exists(os.path.join(ses.dir, "model_BAK_OLD"))
+            if have != had and not (aside and have == had[:-1]):
+                # (when the error outlasts the moving-back of the set-aside oldest copy, that copy stays where it was set
+                # aside - still on disk, the others in order: all a rollback that is itself failing can do)
                 raise Violation("C14/failed-save-lost-a-kept-generation/" + what, {"before": state["slots_before"], "after": slots})
+            if have != had:
+                ctx.count("oldest_copy_left_set_aside_by_a_failing_rollback", 1, "reach")
         elif failed and state.get("slots_before") is not None and slots != state["slots_before"]:
             # a failed save leaves no residue: the same generations in the same slots as before the attempt
             raise Violation("C14/failed-save-changed-the-kept-generations/" + what, {"before": state["slots_before"], "after": slots})
         stray = sorted(n for n in os.listdir(ses.dir) if n.startswith("model") and n not in ("model", "model_BAK1", "model_BAK2", "model_BAK3"))
-        if stray and not (stray == ["model_BAK_OLD"] and any(f[1] in ("unlink", "rmdir", "rmtree") for f in getattr(ses, "save_fired", []))):
+        if stray and not (stray == ["model_BAK_OLD"] and (any(f[1] in ("unlink", "rmdir", "rmtree") for f in getattr(ses, "save_fired", []))
+                                                        or (failed and hit_rollback))):
             # (a fault that hits the removal of the set-aside oldest copy legitimately leaves it until the next save)
             raise Violation("C14/stray-files-next-to-the-model/" + what, {"stray": stray})
         state["slots_now"] = slots
